@@ -106,7 +106,7 @@ Proof.
   all: try (destruct Hcov as [Hk Hcov]).
   - (* ATot, last load *)
     match goal with E : (k =? 4)%nat = true |- _ => apply Nat.eqb_eq in E; subst k end.
-    intro q. apply (snap_extend_le c' snap 4%nat); [lia | exact Hcov |]. pose proof (pool_idx_lt q). lia.
+    intro q. apply (snap_extend_le c snap 4%nat); [lia | exact Hcov |]. pose proof (pool_idx_lt q). lia.
   - (* ATot, next load *)
     match goal with E : (k =? 4)%nat = false |- _ => apply Nat.eqb_neq in E end.
     split; [lia|]. apply snap_extend_le; [lia | exact Hcov].
